@@ -900,6 +900,69 @@ def gen_hex(out):
         out.append(definition(nm, [("a", "Z"), ("b", "Z")], "option (Z * Z)", f.translate(sel)))
 
 
+# ------------------------------------------------------------------ np.roll adjacency loops (templates)
+ROLL_CUT = ("seld = (math.prod(self.shape[:d]), self.shape[d], math.prod(self.shape[d + 1:]))\n"
+            "idx_cut = idx.reshape(seld)\nids_cut = ids.reshape(seld)\n"
+            "if s == 1:\n    idx_cut = idx_cut[:, 1:, :]\n    ids_cut = ids_cut[:, 1:, :]\n"
+            "elif s == -1:\n    idx_cut = idx_cut[:, :-1, :]\n    ids_cut = ids_cut[:, :-1, :]\n"
+            "else:\n    assert False\n")
+WRITE_CUT = "for i, j in zip(idx_cut.reshape(-1), ids_cut.reshape(-1)):\n    adj[i, j] = 1\n"
+
+
+def _ind(text, n):
+    return "".join(" " * n + l + "\n" for l in text.splitlines())
+
+
+def roll_loop(guard):
+    """the axis loop of IntegerLattice.adjacency_matrix the model [int_pairs_g guard] was written from"""
+    w = "if i != j:\n    adj[i, j] = 1\n" if guard else "adj[i, j] = 1\n"
+    return ("for d in range(self.ndim):\n    for s in [-1, 1]:\n        ids = np.roll(idx, s, axis=d)\n"
+            "        if self.pbc[d]:\n            for i, j in zip(idx.reshape(-1), ids.reshape(-1)):\n" + _ind(w, 16) +
+            "        else:\n" + _ind(ROLL_CUT + WRITE_CUT, 12))
+
+
+def tri_diag_loop():
+    """the chord loop of the repaired TriangularLattice.adjacency_matrix ([tri_diag_g true])"""
+    cut_next = ROLL_CUT.replace("self.shape[:d]", "self.shape[:d + 1]").replace("self.shape[d + 1:]", "self.shape[d + 2:]") \
+                       .replace("self.shape[d],", "self.shape[d + 1],")
+    cut_both = ("seld = (math.prod(self.shape[:d]), self.shape[d], self.shape[d + 1], math.prod(self.shape[d + 2:]))\n"
+                "idx_cut = idx.reshape(seld)\nids_cut = ids.reshape(seld)\n"
+                "if s == 1:\n    idx_cut = idx_cut[:, 1:, 1:, :]\n    ids_cut = ids_cut[:, 1:, 1:, :]\n"
+                "elif s == -1:\n    idx_cut = idx_cut[:, :-1, :-1, :]\n    ids_cut = ids_cut[:, :-1, :-1, :]\n"
+                "else:\n    assert False\n")
+    return ("for d in range(self.ndim - 1):\n    for s in [-1, 1]:\n"
+            "        ids = np.roll(idx, s, axis=0)\n        ids = np.roll(ids, s, axis=1)\n"
+            "        if self.pbc[d] and self.pbc[d + 1]:\n"
+            "            for i, j in zip(idx.reshape(-1), ids.reshape(-1)):\n                if i != j:\n                    adj[i, j] = 1\n"
+            "        elif self.pbc[d]:\n" + _ind(cut_next + WRITE_CUT, 12) +
+            "        else:\n            if self.pbc[d + 1]:\n" + _ind(ROLL_CUT, 16) +
+            "            else:\n" + _ind(cut_both, 16) + _ind(WRITE_CUT, 12))
+
+
+def gen_roll_templates(out):
+    """IntegerLattice / TriangularLattice / the vertex part of OddFaceCenteredLattice: the adjacency loops are
+    hand-modelled (int_pairs_g, tri_diag_g); the source must be the text they were written from, so that an
+    edit that only shows on shapes beyond the correspondence run still breaks the tie"""
+    head = "adj = np.zeros((self.nsites, self.nsites), dtype=int)\nidx = np.arange(self.nsites).reshape(self.shape)\n"
+    c = find_class(parse("integer_lattice.py"), "IntegerLattice")
+    if not same(nodoc(find_func(c, "adjacency_matrix")), head + roll_loop(True) + "return adj"):
+        raise Unsupported("IntegerLattice.adjacency_matrix changed")
+    c = find_class(parse("triangular_lattice.py"), "TriangularLattice")
+    if not same(nodoc(find_func(c, "adjacency_matrix")), head + roll_loop(True) + tri_diag_loop() + "return adj"):
+        raise Unsupported("TriangularLattice.adjacency_matrix changed")
+    init = [ast.unparse(x) for x in nodoc(find_func(c, "__init__"))]
+    if init[:2] != ["if len(shape) > 2:\n    raise NotImplementedError('Triangular lattices require at most 2 dimensions, {len(shape)} were given')",
+                    "self.shape = tuple(shape)"]:
+        raise Unsupported("TriangularLattice.__init__: at most two axes")
+    c = find_class(parse("odd_face_centered_lattice.py"), "OddFaceCenteredLattice")
+    am = nodoc(find_func(c, "adjacency_matrix"))
+    if len(am) != 7 or not same(am[:4], "adj = np.zeros((self.nsites, self.nsites), dtype=int)\nnverts = math.prod(self.shape)\n"
+                                        "idx = np.arange(nverts).reshape(self.shape)\n" + roll_loop(False)) \
+            or not same(am[6:], "return adj"):
+        raise Unsupported("OddFaceCenteredLattice.adjacency_matrix: vertex links changed")
+    out.append("Definition gen_roll_templates_matched : bool := true.\n")
+
+
 def gen_layered(out):
     c = find_class(parse("layered_lattice.py"), "LayeredLattice")
     if not same(nodoc(find_func(c, "nsites")), "return self.nlayers * self.base_lattice.nsites"):
@@ -957,6 +1020,7 @@ def generate():
     gen_box_class(out, "fully_connected_lattice.py", "FullyConnectedLattice", "full")
     gen_box_class(out, "customized_lattice.py", "CustomizedLattice", "custom")
     gen_full_custom_adj(out)
+    gen_roll_templates(out)
     gen_ofc(out)
     gen_brick(out)
     gen_hex(out)
